@@ -113,4 +113,541 @@ mod verif_proofs {
         core::mem::forget(r);
         assert!(false);
     }
+
+    // ------------------------------------------------------------------------------------------
+    // C12: authenticator data binary layout
+    // ------------------------------------------------------------------------------------------
+
+    /// SHA-256 replaced by an arbitrary 32-byte value (its identity is not the subject of C12)
+    fn sha256_any(_data: &[u8]) -> [u8; 32] {
+        kani::any()
+    }
+
+    /// flags that may be set without a section following: UP, UV, BE, BS in any combination
+    fn any_plain_flags() -> Flags {
+        let mut f = Flags::empty();
+        if kani::any() {
+            f |= Flags::UP;
+        }
+        if kani::any() {
+            f |= Flags::UV;
+        }
+        if kani::any() {
+            f |= Flags::BE;
+        }
+        if kani::any() {
+            f |= Flags::BS;
+        }
+        f
+    }
+
+    /// to_vec = rpIdHash(32) || flags(1) || big-endian counter(4), nothing else when no section is set
+    #[kani::proof]
+    #[kani::stub(crate::utils::crypto::sha256, sha256_any)]
+    #[kani::unwind(40)]
+    fn c12_to_vec_layout() {
+        let counter: Option<u32> = kani::any();
+        let mut ad = AuthenticatorData::new("example.com", counter);
+        // constructor: default flags BE|BS, the counter as given, no sections
+        assert!(ad.flags == (Flags::BE | Flags::BS));
+        assert!(ad.counter == counter);
+        let flags = any_plain_flags();
+        ad.flags = flags;
+        let hash: [u8; 32] = ad.rp_id_hash().try_into().unwrap();
+        let v = ad.to_vec();
+        assert!(v.len() == 37);
+        let mut i = 0;
+        while i < 32 {
+            assert!(v[i] == hash[i]);
+            i += 1;
+        }
+        assert!(v[32] == flags.bits());
+        assert!(v[32] & 0xC0 == 0); // AT / ED clear: no section present
+        let c = counter.unwrap_or(0).to_be_bytes();
+        assert!(v[33] == c[0] && v[34] == c[1] && v[35] == c[2] && v[36] == c[3]);
+        kani::cover!(counter.is_none());
+        kani::cover!(counter == Some(0x01020304));
+        core::mem::forget(v);
+        core::mem::forget(ad);
+    }
+
+    #[kani::proof]
+    #[kani::stub(crate::utils::crypto::sha256, sha256_any)]
+    #[kani::unwind(40)]
+    fn c12_to_vec_layout_twin() {
+        let counter: Option<u32> = kani::any();
+        let ad = AuthenticatorData::new("example.com", counter);
+        let v = ad.to_vec();
+        core::mem::forget(v);
+        core::mem::forget(ad);
+        assert!(false);
+    }
+
+    /// set_flags ORs, set_attested_credential_data sets AT and stores the section
+    #[kani::proof]
+    #[kani::stub(crate::utils::crypto::sha256, sha256_any)]
+    #[kani::unwind(4)]
+    fn c12_setters_set_section_flags() {
+        let extra = any_plain_flags();
+        let ad = AuthenticatorData::new("a", None).set_flags(extra);
+        assert!(ad.flags == (Flags::BE | Flags::BS | extra));
+        let acd =
+            AttestedCredentialData::new(crate::ctap2::Aaguid::new_empty(), Vec::new(), coset::CoseKey::default())
+                .unwrap();
+        let ad = ad.set_attested_credential_data(acd);
+        assert!(ad.flags.contains(Flags::AT));
+        assert!(ad.attested_credential_data.is_some());
+        assert!(!ad.flags.contains(Flags::ED));
+        // absent / empty extension outputs do not set ED
+        let ad = ad.set_make_credential_extensions(None).unwrap();
+        assert!(!ad.flags.contains(Flags::ED) && ad.extensions.is_none());
+        let ad = ad.set_assertion_extensions(None).unwrap();
+        assert!(!ad.flags.contains(Flags::ED) && ad.extensions.is_none());
+        kani::cover!(extra.contains(Flags::UV));
+        core::mem::forget(ad);
+    }
+
+    /// decoding a 37-byte header with flag byte F (no section bits): fields equal the bytes.
+    /// The flag byte is concrete per instance (a symbolic one drags the CBOR parsers in, F6).
+    fn from_slice_header(flag: u8) {
+        let hash: [u8; 32] = kani::any();
+        let counter: u32 = kani::any();
+        let mut buf = [0u8; 37];
+        let mut i = 0;
+        while i < 32 {
+            buf[i] = hash[i];
+            i += 1;
+        }
+        buf[32] = flag;
+        let c = counter.to_be_bytes();
+        buf[33] = c[0];
+        buf[34] = c[1];
+        buf[35] = c[2];
+        buf[36] = c[3];
+        let ad = AuthenticatorData::from_slice(&buf).unwrap();
+        assert!(ad.flags.bits() == flag);
+        assert!(ad.counter == Some(counter)); // an absent counter (encoded 0) reads back as Some(0)
+        assert!(ad.attested_credential_data.is_none());
+        assert!(ad.extensions.is_none());
+        let h = ad.rp_id_hash();
+        assert!(h.len() == 32);
+        let mut i = 0;
+        while i < 32 {
+            assert!(h[i] == hash[i]);
+            i += 1;
+        }
+        kani::cover!(counter == 0);
+        core::mem::forget(ad);
+    }
+
+    macro_rules! from_slice_header_instance {
+        ($name:ident, $flag:expr) => {
+            #[kani::proof]
+            #[kani::unwind(40)]
+            fn $name() {
+                from_slice_header($flag);
+            }
+        };
+    }
+    from_slice_header_instance!(c12_from_slice_flags_00, 0x00);
+    from_slice_header_instance!(c12_from_slice_flags_01, 0x01);
+    from_slice_header_instance!(c12_from_slice_flags_04, 0x04);
+    from_slice_header_instance!(c12_from_slice_flags_05, 0x05);
+    from_slice_header_instance!(c12_from_slice_flags_08, 0x08);
+    from_slice_header_instance!(c12_from_slice_flags_09, 0x09);
+    from_slice_header_instance!(c12_from_slice_flags_0c, 0x0C);
+    from_slice_header_instance!(c12_from_slice_flags_0d, 0x0D);
+    from_slice_header_instance!(c12_from_slice_flags_10, 0x10);
+    from_slice_header_instance!(c12_from_slice_flags_11, 0x11);
+    from_slice_header_instance!(c12_from_slice_flags_14, 0x14);
+    from_slice_header_instance!(c12_from_slice_flags_15, 0x15);
+    from_slice_header_instance!(c12_from_slice_flags_18, 0x18);
+    from_slice_header_instance!(c12_from_slice_flags_19, 0x19);
+    from_slice_header_instance!(c12_from_slice_flags_1c, 0x1C);
+    from_slice_header_instance!(c12_from_slice_flags_1d, 0x1D);
+
+    #[kani::proof]
+    #[kani::unwind(40)]
+    fn c12_from_slice_twin() {
+        from_slice_header(0x1D);
+        assert!(false);
+    }
+
+    /// every input shorter than 37 bytes is rejected.  The length is symbolic; the byte at offset 32
+    /// (the would-be flag byte, present only for lengths 33..=36) is fixed per instance so that the
+    /// infeasible continuation past the length guard stays cheap for the symbolic executor.
+    fn from_slice_short(flag_if_present: u8) {
+        let body: [u8; 36] = kani::any();
+        let mut buf = [0u8; 36];
+        let mut i = 0;
+        while i < 36 {
+            buf[i] = body[i];
+            i += 1;
+        }
+        buf[32] = flag_if_present;
+        let len: usize = kani::any();
+        kani::assume(len <= 36);
+        let r = AuthenticatorData::from_slice(&buf[..len]);
+        assert!(r.is_err());
+        kani::cover!(len == 36);
+        kani::cover!(len == 0);
+        core::mem::forget(r);
+    }
+    #[kani::proof]
+    #[kani::unwind(40)]
+    fn c12_from_slice_short_rejected_f00() {
+        from_slice_short(0x00);
+    }
+    #[kani::proof]
+    #[kani::unwind(40)]
+    fn c12_from_slice_short_rejected_f1d() {
+        from_slice_short(0x1D);
+    }
+
+    /// AT flagged but the attested credential data section is missing or cut inside its fixed-size
+    /// part (aaguid 16 + id length 2): rejected.  K trailing bytes, concrete per instance.
+    fn from_slice_truncated_at<const K: usize, const TOTAL: usize>() {
+        let body: [u8; TOTAL] = kani::any();
+        let mut buf = [0u8; TOTAL];
+        let mut i = 0;
+        while i < TOTAL {
+            buf[i] = body[i];
+            i += 1;
+        }
+        buf[32] = 0x41; // UP | AT
+        let r = AuthenticatorData::from_slice(&buf);
+        assert!(r.is_err());
+        kani::cover!(true);
+        core::mem::forget(r);
+    }
+    macro_rules! truncated_at_instance {
+        ($name:ident, $k:expr) => {
+            #[kani::proof]
+            #[kani::unwind(60)]
+            fn $name() {
+                from_slice_truncated_at::<{ $k }, { 37 + $k }>();
+            }
+        };
+    }
+    truncated_at_instance!(c12_from_slice_at_truncated_0, 0);
+    truncated_at_instance!(c12_from_slice_at_truncated_1, 1);
+    truncated_at_instance!(c12_from_slice_at_truncated_16, 16);
+    truncated_at_instance!(c12_from_slice_at_truncated_17, 17);
+
+    /// reserved flag bits (1 and 5) are rejected: all 256 bytes at the flags level, three instances
+    /// at the from_slice level
+    #[kani::proof]
+    fn c12_flags_reserved_bits() {
+        let b: u8 = kani::any();
+        let f = Flags::from_bits(b);
+        assert!(f.is_some() == (b & 0x22 == 0));
+        if let Some(f) = f {
+            assert!(f.bits() == b);
+            assert!(u8::from(f) == b);
+            kani::cover!(b == 0xDD);
+        }
+        assert!(Flags::try_from(b).is_ok() == (b & 0x22 == 0));
+        assert!(Flags::UP.bits() == 0x01 && Flags::UV.bits() == 0x04 && Flags::BE.bits() == 0x08);
+        assert!(Flags::BS.bits() == 0x10 && Flags::AT.bits() == 0x40 && Flags::ED.bits() == 0x80);
+    }
+
+    fn from_slice_reserved(flag: u8) {
+        let body: [u8; 37] = kani::any();
+        let mut buf = [0u8; 37];
+        let mut i = 0;
+        while i < 37 {
+            buf[i] = body[i];
+            i += 1;
+        }
+        buf[32] = flag;
+        let r = AuthenticatorData::from_slice(&buf);
+        assert!(r.is_err());
+        core::mem::forget(r);
+    }
+    #[kani::proof]
+    #[kani::unwind(40)]
+    fn c12_from_slice_reserved_02() {
+        from_slice_reserved(0x02);
+    }
+    #[kani::proof]
+    #[kani::unwind(40)]
+    fn c12_from_slice_reserved_20() {
+        from_slice_reserved(0x20);
+    }
+    #[kani::proof]
+    #[kani::unwind(40)]
+    fn c12_from_slice_reserved_23() {
+        from_slice_reserved(0x23);
+    }
+
+    /// credential ids longer than 65535 bytes are refused at construction, others accepted
+    #[kani::proof]
+    #[kani::unwind(2)]
+    fn c12_attested_credential_id_length_guard() {
+        let n: usize = kani::any();
+        kani::assume(n <= 70_000);
+        let id = vec![0u8; n];
+        let r = AttestedCredentialData::new(crate::ctap2::Aaguid::new_empty(), id, coset::CoseKey::default());
+        assert!(r.is_ok() == (n <= 65_535));
+        if let Ok(a) = &r {
+            assert!(a.credential_id().len() == n);
+        }
+        kani::cover!(n == 65_535);
+        kani::cover!(n == 65_536);
+        core::mem::forget(r);
+    }
+
+    // ------------------------------------------------------------------------------------------
+    // C17: U2F raw message encodings
+    // ------------------------------------------------------------------------------------------
+
+    /// key-handle and signature lengths are concrete per instance (symbolic lengths through the
+    /// chained iterators do not finish), all contents symbolic
+    fn register_response_encode<const KHL: usize, const SL: usize>() {
+        let x: [u8; 32] = kani::any();
+        let y: [u8; 32] = kani::any();
+        let kh: [u8; KHL] = kani::any();
+        let cert: [u8; 4] = kani::any();
+        let sig: [u8; SL] = kani::any();
+        let r = u2f::RegisterResponse {
+            public_key: u2f::PublicKey { x, y },
+            key_handle: kh.to_vec(),
+            attestation_certificate: cert.to_vec(),
+            signature: sig.to_vec(),
+        };
+        let v = r.encode();
+        // 0x05 || 0x04 x y || L || key handle || certificate || signature || 0x9000
+        assert!(v.len() == 1 + 65 + 1 + KHL + 4 + SL + 2);
+        assert!(v[0] == 0x05);
+        assert!(v[1] == 0x04);
+        let mut i = 0;
+        while i < 32 {
+            assert!(v[2 + i] == x[i]);
+            assert!(v[34 + i] == y[i]);
+            i += 1;
+        }
+        assert!(v[66] as usize == KHL);
+        let mut i = 0;
+        while i < KHL {
+            assert!(v[67 + i] == kh[i]);
+            i += 1;
+        }
+        let mut i = 0;
+        while i < 4 {
+            assert!(v[67 + KHL + i] == cert[i]);
+            i += 1;
+        }
+        let mut i = 0;
+        while i < SL {
+            assert!(v[71 + KHL + i] == sig[i]);
+            i += 1;
+        }
+        assert!(v[71 + KHL + SL] == 0x90 && v[72 + KHL + SL] == 0x00);
+        kani::cover!(true);
+        core::mem::forget(v);
+    }
+
+    #[kani::proof]
+    #[kani::unwind(90)]
+    fn c17_register_response_encode_0_0() {
+        register_response_encode::<0, 0>();
+    }
+    #[kani::proof]
+    #[kani::unwind(90)]
+    fn c17_register_response_encode_8_8() {
+        register_response_encode::<8, 8>();
+    }
+    #[kani::proof]
+    #[kani::unwind(160)]
+    fn c17_register_response_encode_32_72() {
+        register_response_encode::<32, 72>();
+    }
+
+    fn authentication_response_encode<const SL: usize>() {
+        let flags = any_plain_flags();
+        let counter: u32 = kani::any();
+        let sig: [u8; SL] = kani::any();
+        let r = u2f::AuthenticationResponse {
+            user_presence: flags,
+            counter,
+            signature: sig.to_vec(),
+        };
+        let v = r.encode();
+        assert!(v.len() == 1 + 4 + SL + 2);
+        assert!(v[0] == flags.bits());
+        let c = counter.to_be_bytes();
+        assert!(v[1] == c[0] && v[2] == c[1] && v[3] == c[2] && v[4] == c[3]);
+        let mut i = 0;
+        while i < SL {
+            assert!(v[5 + i] == sig[i]);
+            i += 1;
+        }
+        assert!(v[5 + SL] == 0x90 && v[6 + SL] == 0x00);
+        kani::cover!(true);
+        core::mem::forget(v);
+    }
+    #[kani::proof]
+    #[kani::unwind(20)]
+    fn c17_authentication_response_encode_0() {
+        authentication_response_encode::<0>();
+    }
+    #[kani::proof]
+    #[kani::unwind(20)]
+    fn c17_authentication_response_encode_8() {
+        authentication_response_encode::<8>();
+    }
+    #[kani::proof]
+    #[kani::unwind(80)]
+    fn c17_authentication_response_encode_72() {
+        authentication_response_encode::<72>();
+    }
+
+    #[kani::proof]
+    #[kani::unwind(10)]
+    fn c17_version_encode_and_status_words() {
+        let v = u2f::Version.encode();
+        assert!(v.len() == 8);
+        assert!(v[0] == b'U' && v[1] == b'2' && v[2] == b'F' && v[3] == b'_' && v[4] == b'V' && v[5] == b'2');
+        assert!(v[6] == 0x90 && v[7] == 0x00);
+        assert!(u16::from(u2f::ResponseStatusWords::NoError) == 0x9000);
+        assert!(u2f::ResponseStatusWords::ConditionsNotSatisfied.as_primitive() == 0x6985);
+        assert!(u2f::ResponseStatusWords::WrongData.as_primitive() == 0x6A80);
+        assert!(u2f::ResponseStatusWords::WrongLength.as_primitive() == 0x6700);
+        assert!(u2f::ResponseStatusWords::ClaNotSupported.as_primitive() == 0x6E00);
+        assert!(u2f::ResponseStatusWords::InsNotSupported.as_primitive() == 0x6D00);
+        kani::cover!(true);
+        core::mem::forget(v);
+    }
+
+    /// parsing the raw encoding of any well-formed extended-length register frame returns it
+    #[kani::proof]
+    #[kani::unwind(75)]
+    fn c17_parse_register_frame() {
+        let chal: [u8; 32] = kani::any();
+        let app: [u8; 32] = kani::any();
+        let mut f = [0u8; 73];
+        f[1] = 0x01; // INS register
+        f[6] = 64; // Lc = 00 00 40
+        let mut i = 0;
+        while i < 32 {
+            f[7 + i] = chal[i];
+            f[39 + i] = app[i];
+            i += 1;
+        }
+        // with or without the two Le bytes
+        let with_le: bool = kani::any();
+        let len = if with_le { 73 } else { 71 };
+        let r = u2f::Request::try_from(&f[..len]);
+        match r {
+            Ok(req) => {
+                assert!(req.cla == 0 && req.p1 == 0 && req.data_len == 64);
+                assert!(matches!(req.ins, u2f::Command::Register));
+                match req.data {
+                    u2f::RequestPayload::Register(rr) => {
+                        let mut i = 0;
+                        while i < 32 {
+                            assert!(rr.challenge[i] == chal[i]);
+                            assert!(rr.application[i] == app[i]);
+                            i += 1;
+                        }
+                    }
+                    _ => assert!(false),
+                }
+                kani::cover!(with_le);
+            }
+            Err(_) => assert!(false),
+        }
+    }
+
+    /// ... any well-formed authenticate frame (control byte 3, 7 or 8; key handle 0..=8 bytes)
+    #[kani::proof]
+    #[kani::unwind(85)]
+    fn c17_parse_authenticate_frame() {
+        let chal: [u8; 32] = kani::any();
+        let app: [u8; 32] = kani::any();
+        let kh: [u8; 8] = kani::any();
+        let khl: usize = kani::any();
+        kani::assume(khl <= 8);
+        let p1: u8 = kani::any();
+        kani::assume(p1 == 3 || p1 == 7 || p1 == 8);
+        let mut f = [0u8; 82];
+        f[1] = 0x02; // INS authenticate
+        f[2] = p1;
+        f[6] = (65 + khl) as u8;
+        let mut i = 0;
+        while i < 32 {
+            f[7 + i] = chal[i];
+            f[39 + i] = app[i];
+            i += 1;
+        }
+        f[71] = khl as u8;
+        let mut i = 0;
+        while i < khl {
+            f[72 + i] = kh[i];
+            i += 1;
+        }
+        let with_le: bool = kani::any();
+        let len = 7 + 65 + khl + if with_le { 2 } else { 0 };
+        let r = u2f::Request::try_from(&f[..len]);
+        match r {
+            Ok(req) => {
+                assert!(req.cla == 0 && req.p1 == p1 && req.data_len == 65 + khl);
+                assert!(matches!(req.ins, u2f::Command::Authenticate));
+                match req.data {
+                    u2f::RequestPayload::Authenticate(a) => {
+                        assert!(u8::from(a.parameter) == p1);
+                        let mut i = 0;
+                        while i < 32 {
+                            assert!(a.challenge[i] == chal[i]);
+                            assert!(a.application[i] == app[i]);
+                            i += 1;
+                        }
+                        assert!(a.key_handle.len() == khl);
+                        let mut i = 0;
+                        while i < khl {
+                            assert!(a.key_handle[i] == kh[i]);
+                            i += 1;
+                        }
+                        kani::cover!(khl == 8 && p1 == 7);
+                        kani::cover!(khl == 0 && p1 == 8);
+                        core::mem::forget(a.key_handle);
+                    }
+                    _ => assert!(false),
+                }
+            }
+            Err(_) => assert!(false),
+        }
+    }
+
+    #[kani::proof]
+    #[kani::unwind(12)]
+    fn c17_parse_version_frame() {
+        let mut f = [0u8; 9];
+        f[1] = 0x03;
+        let with_le: bool = kani::any();
+        let len = if with_le { 9 } else { 7 };
+        let r = u2f::Request::try_from(&f[..len]);
+        match r {
+            Ok(req) => {
+                assert!(matches!(req.ins, u2f::Command::Version));
+                assert!(matches!(req.data, u2f::RequestPayload::Version));
+                assert!(req.data_len == 0);
+                kani::cover!(with_le);
+            }
+            Err(_) => assert!(false),
+        }
+        // command byte conversions are mutually inverse
+        let b: u8 = kani::any();
+        assert!(u8::from(u2f::Command::from(b)) == b);
+    }
+
+    #[kani::proof]
+    #[kani::unwind(85)]
+    fn c17_parse_twin() {
+        let f: [u8; 82] = kani::any();
+        let r = u2f::Request::try_from(&f[..]);
+        kani::assume(r.is_ok());
+        core::mem::forget(r);
+        assert!(false);
+    }
 }
